@@ -91,13 +91,23 @@ class StmtMixin:
                 nxt = []
                 for s in states: nxt.extend(self.assign(tgt, v, s))
                 states = nxt
-            for s in states: yield "fall", s, None
+            ref = None
+            if _mutable_container(v.ty) and v.box is None:
+                if isinstance(node.value, (ast.Name, ast.Attribute, ast.Subscript)): ref = ("ref", _src(node.value))
+                elif v.mark is not None and v.mark[0] == "ref": ref = v.mark        # e.g. a getter that returned a field
+            for s in states:
+                if ref is not None:
+                    for tgt in node.targets:
+                        if isinstance(tgt, ast.Name) and tgt.id in s.env:
+                            c = s.env[tgt.id]; s.env[tgt.id] = SV(c.ty, c.t, cls=c.cls, lv=c.lv, box=c.box, mark=ref)
+                yield "fall", s, None
 
     def st_AugAssign(self, node, st):
         load = ast.copy_location(_as_load(node.target), node)
         for s1, (cur, rhs) in self.ev_list([load, node.value], st):
             v = self.binop(s1, node.op, cur, rhs, node)
-            for s2 in self.assign(node.target, v, s1, quiet=True): yield "fall", s2, None
+            inplace = isinstance(cur.ty, T.List)          # list += ... extends the same object
+            for s2 in self.assign(node.target, v, s1, quiet=True, mutation=inplace): yield "fall", s2, None
 
     def st_Delete(self, node, st):
         states = [st]
@@ -119,10 +129,29 @@ class StmtMixin:
         for s in states: yield "fall", s, None
 
     # ------------------------------------------------------------------ assignment to lvalues
-    def assign(self, tgt, val, st, quiet=False):
-        """generator of states after  tgt = val  (nested containers are updated functionally and written back)"""
+    def alias_guard(self, tgt, st):
+        """tgt (an lvalue expression) is about to be updated IN PLACE.  Containers are modelled as values, so the update is only
+        visible through tgt itself: refuse (VCError -> undecided, never a verdict) when another name is known to denote the same object."""
         if isinstance(tgt, ast.Name):
             cur = st.env.get(tgt.id)
+            if cur is not None and cur.mark is not None and cur.mark[0] == "ref":
+                raise VCError("in-place update of '%s', which is a second name for %s: aliased containers must be declared as box(...) cells "
+                              "(line %s)" % (tgt.id, cur.mark[1], getattr(tgt, "lineno", "?")))
+        src = _src(tgt)
+        for n, v in st.env.items():
+            if isinstance(v, SV) and v.mark is not None and v.mark[0] == "ref" and v.mark[1] == src and not (isinstance(tgt, ast.Name) and n == tgt.id):
+                raise VCError("in-place update of %s while '%s' is a live second name for it: aliased containers must be declared as box(...) cells "
+                              "(line %s)" % (src, n, getattr(tgt, "lineno", "?")))
+
+    def assign(self, tgt, val, st, quiet=False, mutation=False):
+        """generator of states after  tgt = val  (nested containers are updated functionally and written back);
+        mutation=True: the assignment is the write-back of an in-place update of the container tgt denotes"""
+        if mutation and not self.spec: self.alias_guard(tgt, st)
+        if isinstance(tgt, ast.Name):
+            cur = st.env.get(tgt.id)
+            if mutation and cur is not None and cur.mark is not None and cur.mark[0] == "param":
+                keep = ("param", cur.mark[1], True)
+            else: keep = None
             if cur is not None and cur.ty != val.ty and tgt.id in self.declared_locals:
                 val = self.coerce(val, self.declared_locals[tgt.id])
             elif tgt.id in self.declared_locals and val.ty != self.declared_locals[tgt.id]:
@@ -131,12 +160,12 @@ class StmtMixin:
                 try: val = self.coerce(val, cur.ty)
                 except VCError:
                     x, y = self.unify(cur, val); val = y
-            st.env[tgt.id] = SV(val.ty, val.t, cls=val.cls)
+            st.env[tgt.id] = SV(val.ty, val.t, cls=val.cls, mark=keep)
             yield st; return
         if isinstance(tgt, ast.Call) and isinstance(tgt.func, ast.Attribute) and tgt.func.attr == "setdefault" and len(tgt.args) == 2:
             # write-back through  d.setdefault(k, default)  (the value it returned was mutated in place): same cell as d[k]
             sub = ast.copy_location(ast.Subscript(value=tgt.func.value, slice=tgt.args[0], ctx=ast.Store()), tgt)
-            yield from self.assign(sub, val, st, quiet=True); return
+            yield from self.assign(sub, val, st, quiet=True, mutation=mutation); return
         if isinstance(tgt, (ast.Tuple, ast.List)):
             if val.ty == Display: parts = val.t
             elif isinstance(val.ty, T.Tup): parts = [SV(t, T.tup_get(val.ty, val.t, i)) for i, t in enumerate(val.ty.ts)]
@@ -213,7 +242,7 @@ class StmtMixin:
                 if base.box is not None:
                     self.hwrite(s1, base.box[0], "val", base.box[1], nv.t); yield s1
                 else:
-                    yield from self.assign(tgt.value, nv, s1, quiet=True)
+                    yield from self.assign(tgt.value, nv, s1, quiet=True, mutation=True)
             return
         raise VCError("assignment target %s" % type(tgt).__name__)
 
@@ -421,6 +450,15 @@ class StmtMixin:
                 continue
             yield from self.for_over(node, s1, spec, ordv, seq)
 
+    def mark_loop_target(self, tgt, st):
+        """alias guard: a loop variable of container type is a second name for an element of the iterated collection"""
+        if isinstance(tgt, ast.Name):
+            c = st.env.get(tgt.id)
+            if isinstance(c, SV) and _mutable_container(c.ty) and c.box is None:
+                st.env[tgt.id] = SV(c.ty, c.t, cls=c.cls, lv=c.lv, mark=("ref", "an element of the iterated collection"))
+        elif isinstance(tgt, (ast.Tuple, ast.List)):
+            for e in tgt.elts: self.mark_loop_target(e, st)
+
     def iter_source(self, it, st, node, ordv, val=None):
         """index view (length, element function) of enumerate(...) / zip(...) / a string / a list; anything else is refused"""
         if val is None and isinstance(it, ast.Call) and isinstance(it.func, ast.Name) and not it.keywords:
@@ -454,6 +492,7 @@ class StmtMixin:
                 if k == len(seq.t):
                     yield "fall", s, None; return
                 for s2 in self.assign(node.target, seq.t[k], s):
+                    self.mark_loop_target(node.target, s2)
                     for kind, s3, v in self.exec_block(node.body, s2):
                         if kind in ("fall", "continue"): yield from unroll(k + 1, s3)
                         elif kind == "break": yield "fall", s3, None
@@ -506,6 +545,7 @@ class StmtMixin:
         def runner(s):
             s.env.update(ghosts(idx0))
             for s2 in self.assign(node.target, elem(s, idx0), s):
+                self.mark_loop_target(node.target, s2)
                 yield from self.exec_block(node.body, s2)
         mod = self.discover_modified(runner, st)
         for g in list(ghosts(idx0).keys()): mod[0].pop(g, None)
@@ -519,6 +559,7 @@ class StmtMixin:
         # one arbitrary iteration
         sa = h.fork(); sa.assume(idx0 < n); sa.env.update(ghosts(idx0))
         for s2 in self.assign(node.target, elem(sa, idx0), sa):
+            self.mark_loop_target(node.target, s2)
             for kind, s3, v in self.exec_block(node.body, s2):
                 if kind in ("fall", "continue"):
                     self.check_invs(s3, spec, "preserved", node, ghosts(idx0 + 1))
@@ -559,6 +600,13 @@ class StmtMixin:
         dom = T.dict_dom(ty, cur.t) if isinstance(ty, T.Dict) else cur.t
         k = z3.Const("k!sk", T.sort_of(ty.k))
         self.oblige(st, z3.ForAll([k], z3.Select(dom, k) == z3.Select(dom0, k)), "iterated-container-keys-unchanged", node)
+
+def _mutable_container(ty):
+    return isinstance(ty, (T.List, T.Dict, T.Set, T.Rec)) or (isinstance(ty, T.Opt) and _mutable_container(ty.t))
+
+def _src(node):
+    try: return ast.unparse(_as_load(node))
+    except Exception: return ast.dump(node)
 
 def _same(a, b):
     if isinstance(a, list) or isinstance(b, list): return a is b
